@@ -493,7 +493,7 @@ class GraphParser:
                 if node == '':
                     chain.append(node)
                     continue
-                node = self.REC_NODE_OUT_OF_RANGE.sub('', node)
+                node = self._remove_out_of_range_nodes(node)
                 if node == '':
                     # For "foo => bar<err> => baz", stop at "bar<err>"
                     break
@@ -535,6 +535,25 @@ class GraphParser:
                     ' side of dependency (must be on left hand side):'
                     f'{left} => {right}'
                 )
+
+    @classmethod
+    def _remove_out_of_range_nodes(cls, expr: str) -> str:
+        """Drop nodes carrying the out-of-range parameter marker.
+
+        "a | b<err> & c" becomes "a | c" ("&" binds tighter than "|").
+        """
+        marker = str(GraphExpander._REMOVE)
+        if marker not in expr:
+            return expr
+        groups = []
+        for group in expr.split(cls.OP_OR):
+            nodes = [
+                node for node in group.split(cls.OP_AND)
+                if marker not in node
+            ]
+            if nodes:
+                groups.append(cls.OP_AND.join(nodes))
+        return cls.OP_OR.join(groups)
 
     @classmethod
     def _report_invalid_lines(cls, lines: List[str]) -> None:
